@@ -2,19 +2,34 @@
    non-vacuity Examples at the end. *)
 From Coq Require Import List ZArith Bool Lia.
 From Verif Require Import C16.Model C16.Spec C16.ModelArb C16.SpecArb
-  C16.Proofs_Evict C16.Proofs_Limiter C16.Proofs_Seq C16.Proofs_Arb C16.Proofs_Arb2 C16.Proofs_Arb3 C16.Proofs_Arb4 C16.Proofs_Trace.
+  C16.Proofs_Evict C16.Proofs_Limiter C16.Proofs_Seq C16.Proofs_Arb C16.Proofs_Arb2 C16.Proofs_Arb3 C16.Proofs_Arb4 C16.Proofs_Arb5 C16.Proofs_Trace.
 Import ListNotations.
 Open Scope Z_scope.
 
 (* ================= arbitration ================= *)
 
 (* after a round, whatever the order in which the waiting jobs are processed, the pods being
-   migrated (running job or passed arbitration) number at most max(limit, number before):
-   globally, per node, per namespace, per workload *)
+   migrated (running job, or pending job that is in the arbitrator's map or carries the
+   passed-arbitration annotation) number at most max(limit, number before): globally, per node,
+   per namespace, per workload *)
 Theorem c16_round_limits : forall c fail order st,
   wf_pods st -> wf_cfg c -> limits_hold c st (round_on c fail order st).
 Proof. exact round_on_limits. Qed.
 Print Assumptions c16_round_limits.
+
+(* the same budgets read off the API objects only ("passed arbitration" = the annotation) - what
+   bin/check recomputes from the history; for every state, also right after a restart *)
+Theorem c16_round_limits_api : forall c fail order st,
+  wf_pods st -> wf_cfg c ->
+  limits_hold c (annot_view st) (annot_view (round_on c fail order st)).
+Proof. exact round_on_limits_annot. Qed.
+Print Assumptions c16_round_limits_api.
+
+Theorem c16_unavailable_api : forall c fail order st,
+  wf_pods st -> wf_cfg c ->
+  unavail_holds c (annot_view st) (annot_view (round_on c fail order st)).
+Proof. exact round_on_unavail_annot. Qed.
+Print Assumptions c16_unavailable_api.
 
 (* the same bounds for the NUMBER OF MIGRATION JOBS that are running or passed arbitration, when
    the live-or-waiting jobs reference pairwise different pods (guaranteed for jobs created through
@@ -53,8 +68,9 @@ Proof. exact history_single_job. Qed.
 Print Assumptions c16_no_second_job_history.
 
 (* the decision procedure that bin/check evaluates on the implementation's observables
-   (budgets, unavailability, per-job outcome: passed | failed-only-if-non-retryable | untouched)
-   holds of every round of the model, from every well-formed state, in the real sort order *)
+   (budgets and unavailability on the annotation view, per-job outcome: passed |
+   failed-only-if-non-retryable | untouched) holds of every round of the model, from every
+   well-formed state (restarts included), in the real sort order *)
 Theorem c16_round_code_ok : forall c f st,
   wf_pods st -> wf_jobs st -> wf_cfg c -> round_code c st (round c f st) = 0.
 Proof. exact round_code_ok. Qed.
@@ -188,6 +204,17 @@ Definition ex_cfg : cfg := mkCfg 1 0 0 (0, 0) (0, 0) true.
 Definition ex_st : ast :=
   mkA [mkPod 1 1 1 0 0 0 true false true false false; mkPod 2 1 1 0 0 1 true false true false false] []
       [mkJob 1 1 0 true true 0 false true false false; mkJob 2 2 1 true true 0 false true false false].
+
+(* regression for the fixed restart defect (bc5a78a): right after a restart (j1 admitted before
+   it and still Pending, map empty, j2 new) the OLD map-only count sees no other job and would
+   admit j2 beyond the global limit 1; the repaired filter refuses j2 and the budget holds *)
+Example c16_restart_old_variant_refuted :
+  let p2 := mkPod 2 1 1 0 0 1 true false true false false in
+  measure (annot_view rs_st) sel_all = c_maxg rs_cfg
+  /\ countb (fun j => avail_old true j && negb (j_pod j =? 0) && negb (j_pod j =? p_id p2)) (a_jobs rs_st) = 0
+  /\ f_global rs_cfg true rs_st p2 = false
+  /\ measure (annot_view (round rs_cfg 0 rs_st)) sel_all = c_maxg rs_cfg.
+Proof. exact restart_old_vs_new. Qed.
 
 Example c16_ex_wf : wf_pods ex_st /\ wf_jobs ex_st /\ wf_cfg ex_cfg.
 Proof.
